@@ -26,7 +26,9 @@ V_truncate(e) ==
     THEN Fail(e.outcome # "ValueError" \/ e.w_outcome # "ValueError", "C20.truncate_order") \cup
          Fail(e.w_outcome = "ValueError" /\ ~e.w_unchanged, "C20.frame")
     ELSE LET m  == Truncate(e.x, e.y, e.left, e.right, e.lr, e.rr)
-             mr == m
+             \* after a history that made the series denser than its reference (e.rx0, e.ry0 = the reference before the cut):
+             \* "the reference cut with the same BOUNDS", not with the same indices (seed C11i)
+             mr == IF "rx0" \in DOMAIN e THEN Truncate(e.rx0, e.ry0, e.left, e.right, e.lr, e.rr) ELSE m
          IN Fail(e.outcome # "ok" \/ ~PairOK(e.outx, e.outy, m, Tol), "C11.truncate") \cup
             Fail(e.w_outcome # "ok" \/ ~PairOK(e.wx, e.wy, m, Tol), "C11.weaver_truncate") \cup
             Fail(e.w_outcome # "ok" \/ ~PairOK(e.wrx, e.wry, mr, Tol), "C11.reference_cut")
